@@ -56,7 +56,7 @@ _AK["-"] = 39
 _AK["."] = 40
 AKAI_ALPHABET = "".join(sorted(_AK, key=_AK.get))
 
-POLICIES = ("contiguous", "ascending", "random", "descending", "head_highest", "head_lowest")
+POLICIES = ("contiguous", "ascending", "random", "descending", "head_highest", "head_lowest", "inner_permuted")
 
 
 def akname(s: str, n: int = 12) -> bytes:
@@ -232,6 +232,19 @@ class _Alloc:
                     break
             else:
                 ch = fs[:k]          # fragmented disk: first fit, ascending
+        elif policy == "inner_permuted":
+            # a gap-free range whose first and last sector stay in place while the interior is linked out of order
+            fs = free
+            ch = None
+            for a in range(len(fs) - k + 1):
+                if fs[a + k - 1] - fs[a] == k - 1:
+                    ch = fs[a:a + k]
+                    break
+            if ch is None:
+                ch = fs[:k]
+            inner = ch[1:-1]
+            rng.shuffle(inner)
+            ch = ch[:1] + inner + (ch[-1:] if k > 1 else [])
         elif policy == "ascending":
             ch = sorted(rng.sample(free, k))
         elif policy == "descending":
